@@ -73,6 +73,9 @@ class GradeScopeEnvironment(Environment):
         self.skip_run = skip_run
         self.skip_tifa = skip_tifa
         self.trace = trace
+        # Every grading starts from the default maximum score, whatever an
+        # earlier instructor script in this process asked for
+        set_maximum_score(1)
         report.set_formatter(Formatter(report))
         verify(report=self.report)
         if not skip_tifa:
